@@ -722,7 +722,7 @@ macro_rules! entries_step {
 entries_step!(entries_q_dbwa_sub_of_mut_and_opt, RDBWA, t1 = [true, true, false, true] x 2,
     super_views = (Option<&mut D>, &mut B, Option<&mut W>, &mut A), sub_views = (&A, Option<&D>, &mut B), filter = filter::None, matches = |b| b[3] && b[1],
     bind = (a, od, bb), checks = [(req 3 a), (opt 0 od), (req 1 bb)]);
-entries_step!(entries_t_dbwa_absent_required, RDBWA, t1 = [true, true, false, true] x 2,
+entries_step!(entries_q_dbwa_absent_required, RDBWA, t1 = [true, true, false, true] x 2,
     super_views = (Option<&mut D>, &mut B, Option<&mut W>, &mut A), sub_views = (&W, &A), filter = filter::None, matches = |b| b[2] && b[3],
     bind = (w, a), checks = [(req 2 w), (req 3 a)]);
 entries_step!(entries_t_dbwa_filter_not, RDBWA, t1 = [true, false, true, true] x 2,
@@ -817,6 +817,13 @@ pub fn worldop_q_clear() {
 
 entries_step!(entries_q_dbwa_has_filter_on_absent_optmut, RDBWA, t1 = [true, true, false, true] x 2,
     super_views = (Option<&mut D>, &mut B, Option<&mut W>, &mut A), sub_views = (&B), filter = Has<W>, matches = |b| b[1] && b[2],
+    bind = (bb), checks = [(req 1 bb)]);
+// user-level combinators over the run-time filter (the second operand decides)
+entries_step!(entries_q_dbwa_and_filter_second_false, RDBWA, t1 = [true, true, false, true] x 2,
+    super_views = (Option<&mut D>, &mut B, Option<&mut W>, &mut A), sub_views = (&B), filter = And<Has<B>, Has<W>>, matches = |b| b[1] && b[1] && b[2],
+    bind = (bb), checks = [(req 1 bb)]);
+entries_step!(entries_t_dbwa_or_filter_second_true, RDBWA, t1 = [true, true, false, true] x 2,
+    super_views = (Option<&mut D>, &mut B, Option<&mut W>, &mut A), sub_views = (&B), filter = Or<Has<W>, Has<A>>, matches = |b| b[1] && (b[2] || b[3]),
     bind = (bb), checks = [(req 1 bb)]);
 entries_step!(entries_t_dbwa_not_has_filter_on_absent_optmut, RDBWA, t1 = [true, true, false, true] x 2,
     super_views = (Option<&mut D>, &mut B, Option<&mut W>, &mut A), sub_views = (&B), filter = Not<Has<W>>, matches = |b| b[1] && !b[2],
